@@ -41,3 +41,54 @@ impl<U: View, V: View> Propagate for LessThanOrEquals<U, V> {
             .chain(self.y.get_underlying_var())
     }
 }
+
+/// Strict comparison `x < y`.
+///
+/// For operands of the same kind this is `x.next() <= y`: the successor is taken in `x`'s own
+/// domain (`+1` for an integer-valued view, one step for a float variable). An integer-valued `x`
+/// below a float **variable** `y` is different: `x + 1 <= y` would push `y` a whole unit above `x`
+/// (`x = 5`, `y = 5.25` satisfies `x < y` but not `x + 1 <= y`), so the strictness is taken on
+/// the float side instead, `x <= y.prev()`, one step of `y` below `y`.
+#[derive(Clone, Copy, Debug)]
+#[doc(hidden)]
+pub struct LessThan<U, V> {
+    x: U,
+    y: V,
+}
+
+impl<U, V> LessThan<U, V> {
+    pub const fn new(x: U, y: V) -> Self {
+        Self { x, y }
+    }
+}
+
+impl<U: View, V: View> Prune for LessThan<U, V> {
+    fn prune(&self, ctx: &mut Context) -> Option<()> {
+        use crate::variables::views::{ViewExt, ViewType};
+
+        let int_below_float_var = self.x.result_type(ctx) == ViewType::Integer
+            && self.y.result_type(ctx) == ViewType::Float
+            && self.y.get_underlying_var().is_some();
+
+        if int_below_float_var {
+            let y_prev = self.y.prev();
+            let _max = self.x.try_set_max(y_prev.max(ctx), ctx)?;
+            let _min = y_prev.try_set_min(self.x.min(ctx), ctx)?;
+        } else {
+            let x_next = self.x.next();
+            let _max = x_next.try_set_max(self.y.max(ctx), ctx)?;
+            let _min = self.y.try_set_min(x_next.min(ctx), ctx)?;
+        }
+
+        Some(())
+    }
+}
+
+impl<U: View, V: View> Propagate for LessThan<U, V> {
+    fn list_trigger_vars(&self) -> impl Iterator<Item = VarId> {
+        self.x
+            .get_underlying_var()
+            .into_iter()
+            .chain(self.y.get_underlying_var())
+    }
+}
